@@ -70,5 +70,48 @@ def run(ctx, F):
             ctx.ok("F8-single-implementation", key, {"callers": [mir.short(c) for c in callers]})
         else:
             ctx.fail("F8-single-implementation", key, f"unexpected callers {odd} (all: {callers})")
+    extend_only_adds(ctx, F.ast)
     ctx.explanation = ("Resolved call-graph reachability (direct calls only, bounded depth) from the selector.nest / selector.append built-ins and from handle_item to the two implementation anchors; caller inventory of the anchors; "
                        "argument roles at the CssSelectorSet::nest call sites.")
+
+
+REMOVALS = ("retain", "retain_mut", "remove", "swap_remove", "drain", "truncate", "dedup", "dedup_by", "dedup_by_key", "pop", "clear", "split_off")
+
+
+def extend_only_adds(ctx, tree):
+    """selector.extend keeps all of s's complex selectors: in Selector::extend a removal may only act on a
+    vector of freshly generated selectors into which the original is inserted afterwards (same block);
+    the accumulated result itself is never filtered."""
+    from lib import ast as A
+    f = tree.one_method("css::selectors::selector::Selector", "extend")
+    n = 0
+
+    def blocks(node):
+        for x in A.walk(node):
+            if x.get("e") == "block":
+                yield x
+    for blk in blocks(f["body"]):
+        stmts = blk["stmts"]
+        for i, st in enumerate(stmts):
+            x = A.strip(st.get("x") or {})
+            if not (isinstance(x, dict) and x.get("e") == "mcall" and x["m"] in REMOVALS and A.strip(x["recv"]).get("e") == "path"):
+                continue
+            n += 1
+            v = A.strip(x["recv"])["p"]
+            later = stmts[i + 1:]
+            readd = any(A.strip(s2.get("x") or {}).get("e") == "mcall" and A.strip(s2["x"])["m"] == "insert" and A.show(A.strip(s2["x"])["recv"]).strip() == v
+                        and A.strip(A.strip(s2["x"])["args"][0]).get("v") in ("0", 0) for s2 in later)
+            key = f"Selector::extend|{v}.{x['m']}"
+            if readd:
+                ctx.ok("F3-extend-only-adds", key, {"then": f"{v}.insert(0, original)"})
+            else:
+                ctx.fail("F3-extend-only-adds", key, f"Selector::extend removes elements from `{v}` ({x['m']}) and does not put the original selector back afterwards: selector.extend could drop one of s's own complex selectors")
+    # filtering rebuilds of the accumulated result outside the per-extendee step
+    for st in f["body"]["stmts"]:
+        x = A.strip(st.get("x") or st.get("init") or {})
+        if isinstance(x, dict) and x.get("e") == "assign" and A.show(x["l"]).strip() == "result":
+            chain = [m["m"] for m in A.walk(x["r"], fn_boundary=True) if m.get("e") == "mcall"]
+            bad = [m for m in chain if m in ("filter", "filter_map", "skip", "skip_while", "take", "take_while", "step_by")]
+            if bad:
+                ctx.fail("F3-extend-only-adds", f"Selector::extend|result rebuilt with {bad}", f"the accumulated result of Selector::extend is rebuilt through {bad}: an original selector can be dropped")
+    ctx.floor("removal sites in Selector::extend", n, 1)
